@@ -53,6 +53,8 @@ def _gen(a):
     e = core.derive(run_seed, "env") % 8
     case.setdefault("env", {"logging": "debug" if e in (0, 1) else ("warning" if e == 2 else "off")})
     case["env"]["optimize"] = int(sys.flags.optimize)  # interpreter flag the run was made under (-O pass, see main)
+    if chk.env_warnings_as_errors and core.derive(run_seed, "envw") % 6 == 0:
+        case["env"].setdefault("warnings", "error")  # the application runs with -W error (warnings raise)
     return case
 
 
@@ -69,6 +71,8 @@ def _gen_exec(a):
     core.apply_env(case.get("env"))
     res = chk.execute(case)
     res.fault("env_logging_" + case["env"]["logging"], 0 if case["env"]["logging"] == "off" else 1)
+    res.fault("env_warnings_as_errors", 1 if case["env"].get("warnings") == "error" else 0)
+    res["env"] = case["env"]
     res["faults"] = {k: v for k, v in res["faults"].items() if v}
     if res["viol"]:
         res["case"] = chk.resolve(case, res)
@@ -190,7 +194,10 @@ def _work(spec):
             c = core.vclass(v)
             per_class[c] += 1
             if per_class[c] <= 2:
-                agg.viol.append((arm, i, run_seed, dict(v), v.get("case") or res.get("case")))
+                vc = v.get("case")
+                if vc is not None and "env" not in vc and res.get("env"):
+                    vc = dict(vc, env=res["env"])  # a sub-case inherits the process environment of the run that found it
+                agg.viol.append((arm, i, run_seed, dict(v), vc or res.get("case")))
     faulthandler.cancel_dump_traceback_later()
     return agg
 
